@@ -1,2 +1,41 @@
-(* C13 theta part -- being written *)
-From DS Require Import Base.Prelude Model.Theta Model.ThetaCodec Spec.ThetaLayout.
+(* C13, theta part -- every compact theta image variant Java/C++ can emit is read back to the state
+   it encodes.  Statements only; proofs in Proofs/ThetaLayoutProofs.v.
+
+   [enc_spec v a] (Spec/ThetaLayout.v) writes the abstract compact sketch [a] as serVer 1, serVer 2
+   (empty / exact / estimating), serVer 3 (empty, single item with or without the SINGLE_ITEM flag,
+   exact, estimating -- also with zero entries --, ordered or unordered) or serVer 4 (every
+   entry_bits width); [expressible v a] says the variant can express the state; [abs_okb a] that it
+   is a theta sketch.  The reader is the REPAIRED code: serVer 2 exact images are no longer decoded
+   as empty (D11, /repo d004b42). *)
+From DS Require Import Base.Prelude Base.BitExp Model.Theta Model.ThetaCodec Spec.ThetaLayout.
+From DS Require Import Proofs.ThetaCodec Proofs.ThetaLayoutProofs.
+Open Scope N_scope.
+
+(* dec_reads_spec: the reader returns exactly the encoded state (entries in image order, theta,
+   seed hash, ordering, emptiness): every query and re-serialization then follows from C11/C12 *)
+Theorem c13_theta_reads_every_variant :
+  forall sh v a, abs_okb a = true -> expressible v a = true -> a_seed_hash a = sh ->
+  c_deserialize sh (enc_spec v a) = Ok (conc a) /\ abs_of (conc a) = a.
+Proof. exact reads_every_variant. Qed.
+
+(* an EMPTY serVer 3 image is accepted whatever its seed hash (as Java/C++ do) *)
+Theorem c13_theta_reads_v3 :
+  forall sh sf a, abs_okb a = true -> (a_empty a = false -> a_seed_hash a = sh) ->
+  c_deserialize sh (enc_v3 sf a) = Ok (conc a).
+Proof. exact reads_v3. Qed.
+
+(* the value read can be used: it is well-formed for both writers (so C11 and C12 apply to it) *)
+Theorem c13_theta_read_value_wf :
+  forall sh a, abs_okb a = true -> (a_empty a = false -> a_seed_hash a = sh) -> c_wf sh (conc a).
+Proof. exact conc_wf. Qed.
+
+(* non-vacuity: the serVer 2 exact form (D11), an unordered serVer 3 image, a Java single-item image *)
+Example c13_theta_example :
+  let a2 := mkAbs [100; 200] S_MAX_THETA 12345 true false in
+  let a3 := mkAbs [200; 100; 150] 1000 12345 false false in
+  let a1 := mkAbs [77] S_MAX_THETA 12345 true false in
+  expressible V2 a2 = true /\ abs_okb a2 = true /\ abs_okb a3 = true /\
+  c_deserialize 12345 (enc_spec V2 a2) = Ok (conc a2) /\ ce_empty (conc a2) = false /\
+  c_deserialize 12345 (enc_spec (V3 false) a3) = Ok (conc a3) /\
+  c_deserialize 12345 (enc_spec (V3 true) a1) = Ok (conc a1) /\ nth 5 (enc_spec (V3 true) a1) 0 = 58.
+Proof. vm_compute. repeat split; reflexivity. Qed.
